@@ -105,7 +105,8 @@ def make_case(rng, site, mode):
         for k in ("canon", "disp", "dbg"):
             s.setdefault(k, "")
     decl = {"kind": site["kind"], "level": site["level"], "target": site["target"] or "", "name": site["name"] or "",
-            "fields": site["fields"], "record": site["record"], "message": {"present": False, "text": "", "args": []}}
+            "fields": site["fields"], "record": site["record"], "message": {"present": False, "text": "", "args": []},
+            "parent": {"span": "given", "none": "root"}.get(site.get("parent"), "ctx")}
     if msg:
         text = msg["tpl"]
         for a in msg["args"]:
@@ -138,7 +139,7 @@ def execute(cases, name, nchunks=8, static=False):
         bins = vlib.cargo_build(["macros"])
     vlib.run_bin(bins["macros"], env={"VH_IN": w / "cases.ndjson", "VH_OUT": w / "trace.ndjson"}, timeout=1800)
     lines = vlib.read_ndjson(w / "trace.ndjson")
-    found, results = trace.validate(D, "FieldsTrace", lines, name, nchunks=nchunks, jobs=nchunks, tags=("BAD",), timeout=2400)
+    found, results = trace.validate(D, "FieldsTrace", lines, name, nchunks=nchunks, jobs=nchunks, tags=("BAD", "BADP"), timeout=2400)
     return lines, found, results
 
 
